@@ -105,9 +105,12 @@ def main():
         prop, what, needs = DESC.get(d, (d.split("-")[0], "see agent-notes.txt", "see agent-notes.txt"))
         res = rows.get("seeded/" + d, {})
         fired = {k: v for k, v in res.items() if k.startswith("C") and v.startswith("VIOLATION")}
+        exp_file = os.path.join(V, "seeded", d, "expected")
+        owner = open(exp_file).read().strip() if os.path.exists(exp_file) else prop
         meta = {
             "id": d,
             "property": prop,
+            "property_whose_check_must_catch_it": owner,
             "origin": "written by an independent sub-agent that was given only the text of the property and a scratch worktree of /repo",
             "change": what,
             "needs_to_manifest": needs,
